@@ -155,10 +155,18 @@ def rand_history(rng, hid, transport, nsteps, ntids=8, maxrto=60000):
     keys = ["k1", "k2"]
     steps = []
     live = []
-    def cfgvals():
+    prev_cfg = {}
+    def cfgvals(t=None):
         rto = rng.choice([1, 499, 500, 501, 60000, rng.randint(1, maxrto), rng.randint(1, 2000)])
         n = rng.choice([0, 1, 7, 8, rng.randint(0, 8)])
         last = rng.choice([0, 1, 60000, rng.randint(0, 60000), rng.randint(0, 3000)])
+        k = rng.random()
+        if k < 0.10:
+            rto, n = 500, 6                     # the intervals of the default schedule, another final timeout
+        elif k < 0.30 and t in prev_cfg:
+            rto, n = prev_cfg[t]                # only the final timeout changes
+        if t is not None:
+            prev_cfg[t] = (rto, n)
         return rto, n, last
     many = len(addrs) > 6
     nxt_peer = 0
@@ -187,7 +195,7 @@ def rand_history(rng, hid, transport, nsteps, ntids=8, maxrto=60000):
                           "pay": rng.choice(["p1", "p2", "p3"])})
             live.append(t)
             if rng.random() < 0.6:
-                rto, n, last = cfgvals()
+                rto, n, last = cfgvals(t)
                 steps.append({"a": "configure", "tid": t, "rto": rto, "n": n, "last": last})
         elif r < 0.62:
             steps.append({"a": "recv", "cls": "response", "tid": t, "from": rng.choice(addrs),
@@ -201,7 +209,7 @@ def rand_history(rng, hid, transport, nsteps, ntids=8, maxrto=60000):
         elif r < 0.86:
             steps.append({"a": "cancel_rt", "tid": t})
         elif r < 0.91:
-            rto, n, last = cfgvals()
+            rto, n, last = cfgvals(t)
             steps.append({"a": "configure", "tid": t, "rto": rto, "n": n, "last": last})
         elif r < 0.95:
             steps.append({"a": "set_remote", "key": rng.choice(keys)})
